@@ -428,6 +428,7 @@ Plan generate_plan(const std::string& profile_in, uint64_t seed, uint64_t index)
         }
         return false;
     };
+    bool twice = strip("_twice");
     aud = strip("_audit");
     disk = strip("_disk");
     pure = strip("_pure");
@@ -475,6 +476,7 @@ Plan generate_plan(const std::string& profile_in, uint64_t seed, uint64_t index)
     }
     if (pure)
         p.cfg.checks |= CK_PURITY;
+    p.cfg.twice = twice;
     if (aud)
     {
         p.cfg.on_disk = true;
